@@ -7,6 +7,7 @@ import (
 	"path/filepath"
 	"runtime/debug"
 	"strconv"
+	"strings"
 	"sync/atomic"
 	"testing"
 	"time"
@@ -31,6 +32,10 @@ func thorough() bool { return tier() == "thorough" }
 func envInt(name string, def int) int {
 	if v := os.Getenv(name); v != "" {
 		if n, err := strconv.Atoi(v); err == nil {
+			return n
+		}
+		// shard names of the extra configurations carry a letter prefix ("p3", "r1"): the number counts
+		if n, err := strconv.Atoi(strings.TrimLeft(v, "abcdefghijklmnopqrstuvwxyz")); err == nil {
 			return n
 		}
 	}
